@@ -439,6 +439,13 @@ class ManifestFile:
                         > MAX_SIGNED_LINE_LENGTH):
                     raise ManifestSyntaxError(
                         'Line too long inside OpenPGP signed data')
+                # GnuPG strips NUL bytes at the end of a cleartext line
+                # along with the trailing whitespace, so they are not
+                # covered by the signature (while str.split() would keep
+                # them as a part of the last word)
+                if '\0' in line:
+                    raise ManifestSyntaxError(
+                        'NUL byte inside OpenPGP signed data')
                 # dash-escaping, RFC 4880 says any line can suffer from it
                 if line.startswith('- '):
                     line = line[2:]
